@@ -18,7 +18,7 @@ def run(ctx):
                         "shares are logged rounded to 1/1000 GPU, 1 milli-CPU, 1 MB - when the logged value is not exact a violation is "
                         "reported only if it survives the rounding error"]
     n = 1200 if ctx.quick else 12000
-    st_cluster.run_stage(ctx, PREFIXES, [("full", n // 4), ("closed", n // 8), ("mixed", n // 8), ("reclaim2", n // 4), ("sat", n * 3 // 2), ("npfs", n // 4)], nontrivial_fn=nontrivial)
+    st_cluster.run_stage(ctx, PREFIXES, [("full", n // 4), ("closed", n // 8), ("mixed", n // 8), ("reclaim2", n // 4), ("sat", n * 3 // 2), ("npfs", n // 4), ("satc", n // 4)], nontrivial_fn=nontrivial)
 
 
 def replay(ctx, obj):
